@@ -58,4 +58,35 @@ func ZZC10Guess() {
 	}
 }
 
-func init() { ZZHarnesses["ZZC10Guess"] = ZZC10Guess }
+// ZZC11GuessAny: the predicates GuessSchemaType tries in map order exclude each other on every byte
+// string (bare, or between quotes): the answer - a type or "unknown" - is the same under every order.
+func ZZC11GuessAny() {
+	n := v.Choose(0, v.Param("maxlen", 4))
+	a := v.Bytes(n)
+	if v.Choose(0, 1) == 1 {
+		a = append(append([]byte{'"'}, a...), '"')
+	}
+	v.Observe("a", a)
+	t, err := GuessSchemaType(a)
+	if err == nil {
+		v.Reach("C11/guess-any-typed")
+	} else {
+		v.Reach("C11/guess-any-unknown")
+	}
+	if v.IsSymbolic() {
+		v.MapOrder(1+v.Choose(0, 1), 0)
+		t2, err2 := GuessSchemaType(a)
+		v.MapOrder(0, 0)
+		v.Assert((err2 == nil) == (err == nil) && t2 == t, "C11/schema-type-depends-on-map-order")
+	} else {
+		for i := 0; i < 200; i++ {
+			t2, err2 := GuessSchemaType(a)
+			v.Assert((err2 == nil) == (err == nil) && t2 == t, "C11/schema-type-depends-on-map-order")
+		}
+	}
+}
+
+func init() {
+	ZZHarnesses["ZZC10Guess"] = ZZC10Guess
+	ZZHarnesses["ZZC11GuessAny"] = ZZC11GuessAny
+}
